@@ -17,6 +17,9 @@ func init() {
 }
 
 func runC14(c *Ctx) {
+	defer checkParseSignatureFirst(c, "C14.R10")
+	defer checkConfigGetters(c, "C14.R8", "GetIDTokenLifespan", "GetIDTokenIssuer", "GetMinParameterEntropy", "GetAllowedPrompts")
+	defer checkStringInSlice(c, "C14.R9")
 	defer checkStoreKeyed(c, "C14.R7", storeRow{meth: "CreateOpenIDConnectSession", table: "IDSessions", op: "create", key: 2}, storeRow{meth: "GetOpenIDConnectSession", table: "IDSessions", op: "get", key: 2}, storeRow{meth: "DeleteOpenIDConnectSession", table: "IDSessions", op: "delete", key: 2})
 	c14R1(c)
 	c14Generate(c)
